@@ -1,4 +1,5 @@
 """C19 Configuration resolves with documented precedence and works from the environment."""
+import os
 from typing import Optional
 
 from vlib import world
@@ -64,6 +65,17 @@ class _Env:
         return False
 
 
+class _Settings:
+    def __init__(self, v):
+        self.v = v
+
+    def value(self):
+        return self.v
+
+    def __call__(self):
+        return self.v
+
+
 KEYS = ["SERVICE_URL", "POLL_TIMER", "IN_APP_INCLUDE", "LOGGING_CONF", "MY_KEY", "SERVICE_USERNAME"]
 MODULE_HAS = {"SERVICE_URL": True, "POLL_TIMER": True, "IN_APP_INCLUDE": True, "LOGGING_CONF": True, "MY_KEY": False,
               "SERVICE_USERNAME": False}
@@ -74,7 +86,7 @@ def lookup(ki: int, ck: int, has_env: bool) -> str:
     Lookup chain for documented and unknown keys: a value given in code (incl. 0, '' and callables, which are called)
     wins; else the deep.config default (env-backed, callables called); else DEEP_<KEY> from the environment; else None.
     (Values are concrete: the lookup applies callable() to them, a C boundary at which the engine would enumerate strings.)
-    PRE: 0 <= ki <= 5 and 0 <= ck <= 5
+    PRE: 0 <= ki <= 5 and 0 <= ck <= 9
     POST: _ == ""
     """
     world.begin_path()
@@ -103,6 +115,19 @@ def lookup(ki: int, ck: int, has_env: bool) -> str:
     elif ck == 5:
         custom[key] = lambda: cv
         want_code = cv
+    elif ck == 6:
+        import functools
+        custom[key] = functools.partial(str.upper, cv)      # "callables, which are called": not only plain functions
+        want_code = cv.upper()
+    elif ck == 7:
+        custom[key] = _Settings(cv).value                   # a bound method
+        want_code = cv
+    elif ck == 8:
+        custom[key] = _Settings(cv)                         # an object with __call__
+        want_code = cv
+    elif ck == 9:
+        custom[key] = os.getcwd                             # a built-in function
+        want_code = os.getcwd()
     with _Env(env):
         import deep.config as dc
         cfg = ConfigService(custom, tracepoints=TracepointConfigService())
@@ -426,9 +451,9 @@ def _mut_env_over_code():
 MUTANTS = {"include_before_exclude": _mut_include_before_exclude, "env_over_code": _mut_env_over_code}
 
 CONDITIONS = [
-    dict(fn="lookup", cubes=["ki == %d and ck == %d" % (k, c) for k in range(6) for c in range(6)],
+    dict(fn="lookup", cubes=["ki == %d and ck == %d" % (k, c) for k in range(6) for c in range(10)],
          twins=["reach", "mutant:env_over_code@ki == 4 and ck == 1"],
-         bounds="6 keys (4 documented incl. a callable default, 2 unknown) x 6 code-value kinds (absent, str, 0, '', None, callable) x env present/absent"),
+         bounds="6 keys (4 documented incl. a callable default, 2 unknown) x 10 code-value kinds (absent, str, 0, '', None, lambda, functools.partial, bound method, callable object, built-in function) x env present/absent"),
     dict(fn="app_frame", cubes=["ni == %d and ne == %d and len(filename) == %d and ri == %d" % (a, b, n, r)
                                 for a in range(3) for b in range(3) for n in range(5) for r in range(4)],
          twins=["reach", "mutant:include_before_exclude@ni == 1 and ne == 1 and len(filename) == 2 and ri == 0"],
